@@ -430,7 +430,7 @@ impl StaticFile {
                 FormalArgs::new(vec![("name".into(), None)]),
                 Arc::new(move |s| {
                     let name: String = s.get("name".into())?;
-                    let rname = name.replace(['-', '.'], "_");
+                    let rname = rust_ident(&name);
                     existing_statics
                         .iter()
                         .find(|(n, _v)| *n == &rname)
@@ -458,16 +458,7 @@ impl StaticFile {
         content: &impl Display,
         suffix: &str,
     ) -> Result<&mut Self> {
-        let mut rust_name =
-            rust_name.replace(|c: char| !c.is_alphanumeric(), "_");
-        if rust_name
-            .as_bytes()
-            .first()
-            .map(|c| c.is_ascii_digit())
-            .unwrap_or(true)
-        {
-            rust_name.insert(0, 'n');
-        }
+        let rust_name = rust_ident(rust_name);
         writeln!(
             self.src,
             "\n/// From {path:?}\
@@ -537,6 +528,20 @@ impl Drop for StaticFiles {
         // Ignore a possible write failure, rather than a panic in drop.
         let _ = do_write(self);
     }
+}
+
+/// The rust identifier used for a static file with a given name.
+fn rust_ident(name: &str) -> String {
+    let mut rust_name = name.replace(|c: char| !c.is_alphanumeric(), "_");
+    if rust_name
+        .as_bytes()
+        .first()
+        .map(|c| c.is_ascii_digit())
+        .unwrap_or(true)
+    {
+        rust_name.insert(0, 'n');
+    }
+    rust_name
 }
 
 struct FileContent<'a>(&'a Path);
